@@ -477,7 +477,9 @@ func (l *State) setServiceStateLocked(s *ServiceState) {
 	// An entry that updateSyncState created for a service that only exists in
 	// the catalog (Deleted, pending deregistration) carries no service record.
 	if hasOld && old.Service != nil {
-		s.InSync = s.Service.IsSame(old.Service)
+		// The previous entry can only vouch for the new one if it was itself
+		// known to be in sync and is not waiting to be deregistered.
+		s.InSync = old.InSync && !old.Deleted && s.Service.IsSame(old.Service)
 	}
 	l.services[key] = s
 
@@ -842,7 +844,9 @@ func (l *State) setCheckStateLocked(c *CheckState) {
 		// An entry that updateSyncState created for a check that only exists in
 		// the catalog (Deleted, pending deregistration) carries no check record.
 		if existing.Check != nil {
-			c.InSync = c.Check.IsSame(existing.Check)
+			// The previous entry can only vouch for the new one if it was itself
+			// known to be in sync and is not waiting to be deregistered.
+			c.InSync = existing.InSync && !existing.Deleted && c.Check.IsSame(existing.Check)
 		}
 		// If the existing check has a Defercheck, it needs to be
 		// assigned to the new check
